@@ -138,3 +138,89 @@ VERIF_HARNESS(c12_s3_idle) {
   if (expired && !state_none) VERIF_REACH("S3 idle session reclaimed");
 #endif
 }
+
+/* ---- S4: the oldest idle session goes when the idle-session limit is reached ------------------------------------------------
+ * Three server sessions with concrete, distinct peer addresses are entered into the endpoint's real uthash table (concrete keys:
+ * the hashing constant-folds); their reference counts, held messages and last-activity times are arbitrary. A datagram from a
+ * fourth peer arrives. */
+#ifndef NSESS
+#define NSESS 3
+#endif
+#ifndef VERIF_REPLAY
+/* environment: interface enumeration (coap_is_bcast) finds no broadcast interface */
+#include <ifaddrs.h>
+int getifaddrs(struct ifaddrs **ifap) { *ifap = NULL; return 0; }
+void freeifaddrs(struct ifaddrs *ifa) { (void)ifa; }
+#endif
+static void
+s4_addr(coap_address_t *a, uint8_t last, uint16_t port) {
+  memset(a, 0, sizeof(*a));
+  a->size = sizeof(struct sockaddr_in);
+  a->addr.sin.sin_family = AF_INET;
+  a->addr.sin.sin_port = htons(port);
+  a->addr.sin.sin_addr.s_addr = htonl(0x0a000000u | last);
+}
+VERIF_HARNESS(c12_s4_evict) {
+  ne_init();
+  static coap_endpoint_t ep;
+  static coap_session_t s[NSESS];
+  static coap_queue_t dq;
+  static coap_packet_t pkt;
+  uint64_t last[NSESS];
+  uint32_t ref[NSESS];
+  uint8_t held[NSESS];
+  int i;
+  VERIF_IN(uint64_t, l0); VERIF_IN(uint64_t, l1); VERIF_IN(uint64_t, l2);
+  VERIF_IN(uint8_t, r0); VERIF_IN(uint8_t, r1); VERIF_IN(uint8_t, r2);
+  VERIF_IN(uint8_t, h0); VERIF_IN(uint8_t, h1); VERIF_IN(uint8_t, h2);
+  VERIF_IN(uint32_t, max_idle);
+  VERIF_IN(uint64_t, now);
+  last[0] = l0; last[1] = l1; last[2] = l2;
+  ref[0] = r0; ref[1] = r1; ref[2] = r2;
+  held[0] = h0; held[1] = h1; held[2] = h2;
+  VERIF_ASSUME(r0 <= 1 && r1 <= 1 && r2 <= 1 && h0 <= 1 && h1 <= 1 && h2 <= 1 && max_idle <= 4);
+  VERIF_ASSUME(now < (1ull << 40) && l0 <= now && l1 <= now && l2 <= now);
+  memset(&ep, 0, sizeof(ep));
+  ep.context = &ne_ctx;
+  ep.proto = COAP_PROTO_UDP;
+  s4_addr(&ep.bind_addr, 1, 5683);
+  ne_ctx.endpoint = &ep;
+  ne_ctx.max_idle_sessions = max_idle;
+  for (i = 0; i < NSESS; i++) {
+    ne_init_session(&s[i], COAP_PROTO_UDP);
+    s[i].type = COAP_SESSION_TYPE_SERVER;
+    s[i].endpoint = &ep;
+    s[i].ref = ref[i];
+    s[i].delayqueue = held[i] ? &dq : NULL;
+    s[i].last_rx_tx = last[i];
+    s4_addr(&s[i].addr_info.remote, (uint8_t)(10 + i), 40000);
+    s4_addr(&s[i].addr_info.local, 1, 5683);
+    __CPROVER_file_local_coap_session_c_coap_make_addr_hash(&s[i].addr_hash, COAP_PROTO_UDP, &s[i].addr_info);
+    SESSIONS_ADD(ep.sessions, &s[i]);
+  }
+  s4_addr(&pkt.addr_info.remote, 99, 40000);
+  s4_addr(&pkt.addr_info.local, 1, 5683);
+  free_calls = 0; ne_event_count = 0;
+  coap_session_t *ns = coap_endpoint_get_session(&ep, &pkt, now);
+  /* reference: idle = unreferenced server session with nothing held */
+  int nidle = 0, k = -1;
+  for (i = 0; i < NSESS; i++)
+    if (ref[i] == 0 && !held[i]) {
+      nidle++;
+      if (k < 0 || last[i] < last[k]) k = i;
+    }
+  int evict = max_idle > 0 && (uint32_t)nidle >= max_idle;
+  VERIF_ASSERT(free_calls == (evict ? 1 : 0), "S4 one session is reclaimed exactly when the number of idle sessions has reached max_idle_sessions");
+  if (evict) {
+    int fi = freed == &s[0] ? 0 : freed == &s[1] ? 1 : 2;
+    VERIF_ASSERT((freed == &s[0] || freed == &s[1] || freed == &s[2]) && ref[fi] == 0 && !held[fi], "S4 only an unreferenced session with nothing held is reclaimed");
+    VERIF_ASSERT(last[fi] == last[k], "S4 the session reclaimed at the idle limit is the one that has been idle longest");
+  }
+  if (ns) {
+    VERIF_ASSERT(ns != &s[0] && ns != &s[1] && ns != &s[2], "S4 a datagram from a new peer gets a session of its own");
+    VERIF_ASSERT(ne_event_count == (evict ? 2 : 1), "S4 exactly one session-new event for the new peer (plus one session-deleted event for the reclaimed session)");
+  }
+#ifdef WITNESS
+  if (evict && nidle >= 2 && ns) VERIF_REACH("S4 eviction among several idle sessions");
+#endif
+}
